@@ -21,6 +21,7 @@ _real_exists = pathlib.Path.exists
 _real_unlink = pathlib.Path.unlink
 
 _CURRENT = [None]  # the armed Run
+_ORIG_LOCK = [None]  # taskchain.cache.FileLock as the tree under test defines it
 
 
 class Deadlock(Exception):
@@ -106,7 +107,8 @@ class Run:
             dep = next(x for x in self.workers if x.name == w.start_after)
             return dep.finished
         if op == 'acquire':
-            return lock_is_free(detail)
+            lk = getattr(w, 'pending_lock', None)
+            return lk.probe() if lk is not None else lock_is_free(detail)
         return True
 
     def execute(self):
@@ -175,8 +177,30 @@ class SchedLock:
 
         self.path = str(lock_file)
         self._args = (a, k)
-        self._real = filelock.FileLock(self.path, *a, **k)
+        # the lock the library itself would have created (whatever `taskchain.cache.FileLock` is in the tree under test)
+        self._real = (_ORIG_LOCK[0] or filelock.FileLock)(self.path, *a, **k)
         self._depth = 0
+
+    def probe(self):
+        """may this lock be taken right now? (asked by the scheduler thread while every worker is parked)"""
+        import filelock
+
+        if isinstance(self._real, filelock.BaseFileLock):
+            return lock_is_free(self.path)
+        try:  # some other kind of lock: try it for real from here and give it back
+            got = self._real.acquire(timeout=0)
+        except Exception:  # noqa
+            return False
+        if got is False:
+            return False
+        self._release_real()
+        return True
+
+    def _release_real(self):
+        try:
+            self._real.release(force=True)
+        except TypeError:
+            self._real.release()
 
     def acquire(self, *a, **k):
         run = _CURRENT[0]
@@ -185,11 +209,17 @@ class SchedLock:
             self._real.acquire(*a, **k)
             return _Proxy(self)
         if self._depth == 0:
-            run.point('acquire', self.path)
+            w.pending_lock = self
             try:
-                self._real.acquire(timeout=0)
+                run.point('acquire', self.path)
+            finally:
+                w.pending_lock = None
+            try:
+                got = self._real.acquire(timeout=0)
             except Exception as e:  # noqa
-                raise HarnessError(f'scheduler granted lock {self.path} but the real FileLock refused it: {e}')
+                raise HarnessError(f'scheduler granted lock {self.path} but the real lock refused it: {e}')
+            if got is False:
+                raise HarnessError(f'scheduler granted lock {self.path} but the real lock refused it')
             run.locks[self.path] = w.name
         self._depth += 1
         return _Proxy(self)
@@ -208,10 +238,10 @@ class SchedLock:
                 try:
                     run.point('release', self.path)
                 except _Abort:
-                    self._real.release(force=True)
+                    self._release_real()
                     run.locks.pop(self.path, None)
                     raise
-            self._real.release(force=True)
+            self._release_real()
             run.locks.pop(self.path, None)
 
     def __enter__(self):
@@ -364,6 +394,7 @@ class armed:
         self._saved = (cache.FileLock, io.open, builtins.open, pathlib.Path.exists, pathlib.Path.unlink)
         self._saved_os = (os.unlink, os.remove)
         os.unlink = os.remove = _os_unlink
+        _ORIG_LOCK[0] = cache.FileLock
         cache.FileLock = SchedLock
         io.open = _open
         builtins.open = _open
@@ -414,3 +445,180 @@ def explore(make_run, bound, max_schedules=None, root=()):
         stack.extend(children(run, len(prefix), bound))
         if max_schedules and n >= max_schedules:
             return
+
+
+# ------------------------------------------------------------------------------------------------ callers as real processes
+class RemoteError(Exception):
+    """an exception raised inside a caller process (type name and message travel, the object does not)"""
+
+    def __init__(self, type_name, msg):
+        super().__init__(f'{type_name}: {msg}')
+        self.type_name = type_name
+
+
+class _ChildRun:
+    """what the interposition layer sees inside a forked caller process: one worker, every visible operation is announced
+    to the scheduler process over a pipe and performed only after its 'go'"""
+
+    def __init__(self, conn, name, root):
+        self.conn, self.root = conn, root
+        self.aborting = False
+        self.locks = {}
+        self._tid = threading.get_ident()
+
+        class _W:
+            pass
+        self._w = _W()
+        self._w.name = name
+
+    def me(self):
+        return self._w if threading.get_ident() == self._tid else None
+
+    def point(self, op, detail):
+        if self.aborting:
+            raise _Abort()
+        self.conn.send(('point', op, detail))
+        if not self.conn.poll(WAIT * 2):
+            os._exit(3)
+        if self.conn.recv() != 'go':
+            self.aborting = True
+            raise _Abort()
+
+
+class ProcWorker:
+    def __init__(self, idx, name, body, start_after):
+        self.idx, self.name, self.body, self.start_after = idx, name, body, start_after
+        self.pending = None
+        self.finished = False
+        self.result = None
+        self.conn = None
+        self.pid = None
+
+
+class ProcRun(Run):
+    """the same controlled execution with every caller in its OWN forked process: no Python state is shared between the
+    callers, the lock is the operating system's lock on the real lock file held by different processes, and the scheduler
+    (this process) decides which process performs its next visible operation. Same points / trace / choices as Run."""
+
+    def __init__(self, root, bodies, choices, horizon=2000):  # noqa
+        self.root = os.path.realpath(str(root))
+        self.workers = [ProcWorker(i, n, b, sa) for i, (n, b, sa) in enumerate(bodies)]
+        self.choices = list(choices)
+        self.points = []
+        self.trace = []
+        self.locks = {}
+        self.running = None
+        self.horizon = horizon
+        self.aborting = False
+        self.deadlock = None
+
+    def _child(self, w, conn):
+        status = 3
+        try:
+            cr = _ChildRun(conn, w.name, self.root)
+            _CURRENT[0] = cr
+            try:
+                with armed():
+                    cr.point('start', None)
+                    msg = ('finish', 'ok', w.body())
+            except _Abort:
+                msg = ('finish', 'aborted', None)
+            except BaseException as e:  # noqa
+                msg = ('finish', 'exc', (type(e).__name__, str(e)))
+            try:
+                conn.send(msg)
+            except Exception as e:  # noqa  (unpicklable result)
+                conn.send(('finish', 'exc', ('HarnessError', f'result of {w.name} cannot be sent: {type(e).__name__}: {e}')))
+            status = 0
+        finally:
+            os._exit(status)
+
+    def _recv(self, w):
+        if not w.conn.poll(WAIT):
+            raise HarnessError(f'caller process {w.name} neither yielded nor finished')
+        try:
+            msg = w.conn.recv()
+        except EOFError:
+            raise HarnessError(f'caller process {w.name} died')
+        if msg[0] == 'point':
+            w.pending = (msg[1], msg[2])
+        else:
+            w.finished, w.pending = True, None
+            if msg[1] == 'exc':
+                tn, m = msg[2]
+                if tn == 'HarnessError':
+                    self._abort([x for x in self.workers if not x.finished])
+                    raise HarnessError(m)
+                w.result = ('exc', RemoteError(tn, m))
+            else:
+                w.result = (msg[1], msg[2])
+            self.trace.append((w.name, 'finish', None))
+            os.waitpid(w.pid, 0)
+
+    def execute(self):
+        import multiprocessing as mp
+
+        for w in self.workers:
+            parent, child = mp.Pipe()
+            pid = os.fork()
+            if pid == 0:
+                parent.close()
+                self._child(w, child)
+            child.close()
+            w.conn, w.pid = parent, pid
+        try:
+            for w in self.workers:
+                self._recv(w)
+            steps = 0
+            while True:
+                alive = [w for w in self.workers if not w.finished]
+                if not alive:
+                    break
+                en = [w for w in alive if self._enabled(w)]
+                if not en:
+                    self.deadlock = [(w.name, w.pending) for w in alive]
+                    self._abort(alive)
+                    break
+                run_en = self.running is not None and self.running in en
+                order = ([self.running] if run_en else []) + [w for w in en if w is not self.running]
+                i = len(self.points)
+                ch = self.choices[i] if i < len(self.choices) else 0
+                if ch >= len(order):
+                    self._abort(alive)
+                    raise HarnessError(f'choice {ch} out of range at point {i} (enabled {[w.name for w in order]}): divergence while replaying a prefix')
+                self.points.append({'n': len(order), 'chosen': ch, 'running_enabled': run_en, 'enabled': [w.name for w in order]})
+                w = order[ch]
+                self.running = w
+                self.trace.append((w.name,) + tuple(w.pending))
+                w.pending = None
+                w.conn.send('go')
+                self._recv(w)
+                steps += 1
+                if steps > self.horizon:
+                    self._abort([x for x in self.workers if not x.finished])
+                    raise HarnessError('horizon exceeded (livelock?)')
+        finally:
+            for w in self.workers:
+                if not w.finished:
+                    self._kill(w)
+                w.conn.close()
+        return self
+
+    def _abort(self, alive):
+        self.aborting = True
+        for w in alive:
+            self._kill(w)
+
+    def _kill(self, w):
+        import signal
+
+        if w.finished:
+            return
+        try:
+            os.kill(w.pid, signal.SIGKILL)
+            os.waitpid(w.pid, 0)
+        except (ProcessLookupError, ChildProcessError):
+            pass
+        w.finished = True
+        if w.result is None:
+            w.result = ('aborted', None)
